@@ -10,6 +10,7 @@ import DG.ModInfoProto
 import DG.TextPos
 import DG.Exports
 import DG.EraseProto
+import DG.Trace
 /-! Line-protocol driver: one request per line on stdin, one answer per line on stdout. -/
 open DG DG.Sexp
 
@@ -241,6 +242,29 @@ def handle (st : DState) (req : Sexp) : DState × String :=
     match ms.mapM mod?, nat? m with
     | some w, some m =>
       (st, joinSp (((DG.Sym.exportsOf w m).map fun (n, p) => s!"{n}@{p}")))
+    | _, _ => (st, "bad-op")
+  | .list [.atom "fc-trace", .list (.atom "mods" :: ms), .list (.atom "entries" :: es)] =>
+    let triple? : Sexp → Option (Nat × Nat × Nat) := fun
+      | .list [a, b, c] => do pure ((← nat? a), (← nat? b), (← nat? c))
+      | _ => none
+    let pair? : Sexp → Option (Nat × Nat) := fun
+      | .list [a, b] => do pure ((← nat? a), (← nat? b))
+      | _ => none
+    let decl? : Sexp → Option DG.Trace.Decl := fun
+      | .list [n, e, d, .list (.atom "refs" :: rs)] => do
+        pure { name := ← nat? n, exported := ← bool? e, isDefault := ← bool? d, refs := ← nats? rs }
+      | _ => none
+    let mod? : Sexp → Option DG.Trace.Mod := fun
+      | .list [.list (.atom "decls" :: ds), .list (.atom "imports" :: is), .list (.atom "from" :: fs),
+               .list (.atom "stars" :: ss), .list (.atom "locals" :: ls)] => do
+        pure { decls := ← ds.mapM decl?, imports := ← is.mapM triple?, exportFrom := ← fs.mapM triple?,
+               stars := ← nats? ss, exportLocal := ← ls.mapM pair? }
+      | _ => none
+    match ms.mapM mod?, nats? es with
+    | some w, some es =>
+      (st, match DG.Trace.trace w es 100000 with
+        | some s => joinSp s.tokens
+        | none => "OUT-OF-FUEL")
     | _, _ => (st, "bad-op")
   | .list [.atom "valid"] =>
     (st, match st.graph.valid with | some e => e.show | none => "ok")
